@@ -73,6 +73,19 @@ func (vc *FnVC) lvalPtr(lv *Lval) string {
 			vc.enc.declConst(name, sInt)
 			vc.enc.header = append(vc.enc.header, "(assert (< "+name+" 0))")
 		}
+		known := false
+		for _, c := range vc.gaOrder {
+			if c == lv.comp {
+				known = true
+			}
+		}
+		if !known {
+			// addresses of distinct package variables are distinct
+			for _, c := range vc.gaOrder {
+				vc.emit(not(eq(name, "addr$"+c)))
+			}
+			vc.gaOrder = append(vc.gaOrder, lv.comp)
+		}
 		return name
 	}
 	fn := "fa$" + lv.comp
@@ -477,6 +490,12 @@ func (vc *FnVC) loadPtr(st *State, p string, t types.Type) string {
 	}
 	comp, sortS := vc.cellComp(t)
 	res := sel(vc.cur(st, comp), p)
+	// the pointer may be the address of a package-level variable taken in this function
+	for _, gc := range vc.gaOrder {
+		if vc.compSort[gc] == sortS {
+			res = ite(eq(p, "addr$"+gc), vc.cur(st, gc), res)
+		}
+	}
 	// the pointer may be the address of a field taken earlier in this function
 	for i := len(vc.faOrder) - 1; i >= 0; i-- {
 		fc := vc.faOrder[i]
